@@ -154,6 +154,37 @@ def variants(rng, sx, per_kind):
 
 bad_base = set()
 
+# hand-written (program, rewritten program) pairs outside the generated fragment (floats): (name, rewrite, original, rewritten)
+_FP = 'import "std/io";\n'
+FIXED_PAIRS = [
+    ("float-quotient-literal", "lit-to-call", _FP + "fn main() {\n    let f: f64 = 1.0/3.0;\n    io::Println(f);\n}\n",
+     _FP + "fn one() -> f64 { return 1.0; }\nfn main() {\n    let f: f64 = one()/3.0;\n    io::Println(f);\n}\n"),
+    ("float-sum-literal", "lit-to-call", _FP + "fn main() {\n    let f: f64 = 0.5 + 0.25;\n    io::Println(f);\n}\n",
+     _FP + "fn half() -> f64 { return 0.5; }\nfn main() {\n    let f: f64 = half() + 0.25;\n    io::Println(f);\n}\n"),
+    ("float-let-to-const", "let-to-const", _FP + "fn main() {\n    let f: f64 = 2.5;\n    let g: f64 = f * 2.0;\n    io::Println(g);\n}\n",
+     _FP + "fn main() {\n    const f: f64 = 2.5;\n    let g: f64 = f * 2.0;\n    io::Println(g);\n}\n"),
+    ("float-if-true", "wrap-if-true", _FP + "fn main() {\n    let f: f64 = 1.5;\n    io::Println(f + 0.25);\n}\n",
+     _FP + "fn main() {\n    let f: f64 = 1.5;\n    if true {\n        io::Println(f + 0.25);\n    }\n}\n"),
+    ("float-bind-subexpression", "bind-fresh-let", _FP + "fn main() {\n    let a: f64 = 3.0;\n    io::Println((a * 2.0) + 1.0);\n}\n",
+     _FP + "fn main() {\n    let a: f64 = 3.0;\n    let t: f64 = a * 2.0;\n    io::Println(t + 1.0);\n}\n"),
+]
+
+
+def check_fixed_pairs(rep, st):
+    jobs = []
+    for name, vk, a, b in FIXED_PAIRS:
+        jobs += [{"files": {"main.fer": a}, "mode": "run", "timeout": 30}, {"files": {"main.fer": b}, "mode": "run", "timeout": 30}]
+    res = run_many(jobs)
+    st["fixed_pairs"] = len(FIXED_PAIRS)
+    for i, (name, vk, a, b) in enumerate(FIXED_PAIRS):
+        ra, rb = res[2 * i], res[2 * i + 1]
+        rp = {"kind": "input", "rewrite": vk, "base_files": {"main.fer": a}, "files": {"main.fer": b}, "cmd": "ferret -o out main.fer && ./out   (for both programs)"}
+        if ra.accepted != rb.accepted:
+            errs = [d[2][:90] for d in (ra if not ra.accepted else rb).diags if d[0] == "error"][:2]
+            rep.fail("fixed-pair:" + name, "rewrite %s changes the compiler's verdict: original %s, rewritten %s (%s)" % (vk, "accepted" if ra.accepted else "rejected", "accepted" if rb.accepted else "rejected", errs), rp)
+        elif ra.accepted and (ra.lines, ra.run_rc) != (rb.lines, rb.run_rc):
+            rep.fail("fixed-pair-output:" + name, "rewrite %s changes the output: %s vs %s" % (vk, ra.lines[:4], rb.lines[:4]), rp)
+
 
 def main():
     tier = os.environ.get("VERIF_TIER", "quick")
@@ -174,6 +205,7 @@ def main():
     for i in range(nb): bases.append(("wide-const", wide_const_grid(rng, (seed() - 1) * nb + i)))
     import c08
     for i in range(nb // 2): bases.append(("dyn-history", c08.history(rng, rng.choice(["i32", "i64", "u8"]), "none")))
+    for t in ("i32", "i64", "u8"): bases.append(("dyn-history", c08.reassign_longer(t)))
     for name, feats, sx in catalogue.PROBES[:: (9 if tier == "quick" else 1)]: bases.append(("probe:" + name, sx))
     per_kind = 2 if tier == "quick" else 4
     bm = model_run([b for _, b in bases])
@@ -207,11 +239,12 @@ def main():
             if (target, bi) in bad_base: continue
             b, rb = ms[bi], res[bi]
             if (target, bi) in bad_base: continue
-            if kind == "wide-const" and target == "native" and not rb.accepted and ("rej", bi) not in bad_base:
-                # these bases are in range by construction and accepted on the baseline: a rejection is the compiler's early evaluation going wrong
+            if kind in ("wide-const", "dyn-history", "narrow", "const-flow") and target == "native" and not rb.accepted and ("rej", bi) not in bad_base:
+                # these bases are valid by construction (every result in range, every index in bounds) and accepted on the baseline: a rejection is
+                # the compiler's early evaluation going wrong
                 bad_base.add(("rej", bi))
                 errs0 = [d[2][:100] for d in rb.diags if d[0] == "error"][:2]
-                rep.fail("baserej:%s" % hashlib.sha1(b["text"].encode()).hexdigest()[:12], "a constant-arithmetic program whose every result is in range is REJECTED (%s); the same arithmetic on call results is accepted" % errs0,
+                rep.fail("baserej:%s" % hashlib.sha1(b["text"].encode()).hexdigest()[:12], "a %s program that is valid by construction (results in range, indices in bounds) is REJECTED (%s); what the compiler evaluated early is wrong" % (kind, errs0),
                          {"kind": "input", "files": {"main.fer": b["text"]}, "expected": {"lines": b["lines"]}, "observed": strip_ansi(rb.compile_out)[-500:], "cmd": "ferret -t main.fer"})
             if target == "wasm" and not rb.accepted: continue           # outside the common domain
             if bi not in base_checked[target] and not kind.startswith("probe:"):        # probes: C01/C02 own them (baseline + known findings)
@@ -236,6 +269,9 @@ def main():
                     # one defect, one key: the borrow checker keeps a loan alive up to the outer statement that contains its last use, so statements
                     # moved into an `if true { }` block together see the loan although its last use has passed
                     vkey = "verdict:wrap-if-true:loan-kept-to-end-of-wrapped-statement:" + target
+                if "lit" in vk and rb.accepted and errs and all(("mismatched types in arithmetic: &" in d[2]) for d in errs):
+                    # one defect, one key: arithmetic reads through a reference only when the other operand is a literal
+                    vkey = "verdict:reference-operand-needs-literal:" + target
                 rep.fail(vkey, "rewrite %s of a %s program changes the compiler's verdict on %s: original %s, rewritten %s (%s)" %
                          (vk, kind, target, "accepted" if rb.accepted else "rejected", "accepted" if r.accepted else "rejected", [d[2][:80] for d in errs][:2]),
                          dict(rp, observed=strip_ansi((r if rb.accepted else rb).compile_out)[-500:]))
@@ -256,6 +292,8 @@ def main():
         sel_problems, sel_rows = [str(e)[-500:]], []
     for pr in sel_problems:
         rep.fail("tie:qbesel", "instruction-selection table cannot be regenerated: " + pr, {"kind": "broken-obligation", "detail": pr}, no_input=True)
+    check_fixed_pairs(rep, st)
+
     ok, outp = lake_build(["FerretVerif.Props.C09"])
     names = theorem_names("C09")
     axioms, discharged = {}, 0
